@@ -23,6 +23,16 @@ var instrumented = []string{
 	"internal/rules/mechanisms/finalizers/jwt_signer.go",
 }
 
+// syncOnlyDirs: the other files of the packages driven under the controlled scheduler (not recursive); a lock one of them
+// holds becomes a lock the scheduler knows
+var syncOnlyDirs = []string{
+	"internal/rules",
+	"internal/x/radixtree",
+	"internal/keystore",
+	"internal/keyholder",
+	"internal/rules/mechanisms/finalizers",
+}
+
 func main() {
 	variant := flag.String("variant", "base", "base|sched|race")
 	out := flag.String("o", "", "output binary")
@@ -133,6 +143,61 @@ func main() {
 			}
 
 			replace[orig] = repl
+		}
+	}
+
+	if *variant == "sched" {
+		fully := map[string]bool{}
+		for _, rel := range instrumented {
+			fully[filepath.Join(*repo, rel)] = true
+		}
+
+		for _, dir := range syncOnlyDirs {
+			abs := filepath.Join(*repo, dir)
+			names := map[string]bool{}
+
+			if ents, err := os.ReadDir(abs); err == nil {
+				for _, e := range ents {
+					names[filepath.Join(abs, e.Name())] = true
+				}
+			}
+
+			for k := range replace {
+				if filepath.Dir(k) == abs {
+					names[k] = true
+				}
+			}
+
+			for file := range names {
+				base := filepath.Base(file)
+				if fully[file] || !strings.HasSuffix(base, ".go") || strings.HasSuffix(base, "_test.go") ||
+					strings.HasSuffix(base, "_type_registry.go") || strings.HasPrefix(base, "zz_verif") {
+					continue
+				}
+
+				from := file
+				if r, ok := replace[file]; ok {
+					from = r
+				}
+
+				src, err := os.ReadFile(from)
+				if err != nil {
+					continue
+				}
+
+				res, err := instrumentSyncOnly(file, src)
+				if err != nil {
+					fatalf("sync-only instrumentation of %s: %v", file, err)
+				}
+
+				if res == nil {
+					continue
+				}
+
+				outPath := filepath.Join(work, "synconly__"+strings.ReplaceAll(strings.TrimPrefix(file, "/"), "/", "__")+".txt")
+				writeIfChanged(outPath, res)
+				replace[file] = outPath
+			}
 		}
 	}
 
